@@ -476,3 +476,44 @@ def shared_geometry(ctx: Ctx) -> None:
     from . import C18 as _c18
     from .common import support
     support(ctx, [_c18.r1, _c18.r3, _c18.r4, _c18.r5, _c18.r6], {"Rectangle.split", "Rectangle.split_horizontal", "Rectangle.split_vertical", "Rectangle.duplicate", "Rectangle.overlap", "Rectangle.area_overlap", "Rectangle.area", "Rectangle.bounding_box"})
+
+
+@rule("C02", "R9.area-centre-definition", "LAW",
+      "what 'the same total area and centre of mass' is measured with: for every module, area = sum over all its cells of "
+      "ratio * cell area and centre = sum of cell centre * (ratio * cell area) / area -- every cell counts, however small "
+      "its share (an absolute cut-off makes the measured area depend on how finely the cells are cut)", floor=2)
+def r9(ctx: Ctx) -> None:
+    from framelint.canon import fold_sums, single_defs, deref
+    f = ctx.func(ALLOC, "Allocation._calculate_areas_and_centers")
+    c = fold_sums(canon_function(f, ctx.model))
+    s_ = ("self",)
+    loops = [st for st in c if st[0] == "for" and len(st) == 5 and st[2] == ("c", ("a", ("a", s_, "_module2rect"), "items"), (), ())]
+    ctx.site(f.where, "area of a module == sum over all its cells of ratio * cell area")
+    ok_a = ok_c = False
+    if len(loops) == 1 and loops[0][1][0] == "tuple" and len(loops[0][1][1]) == 2:
+        mod, cells = loops[0][1][1]
+        body = fold_sums(loops[0][3])
+        bd = deref(body, single_defs(body))
+        b0 = ("b", 1, 0)
+        rect = ("a", ("s", ("a", s_, "_allocations"), ("a", b0, "rect_index")), "rect")
+        share = (to_poly(("a", b0, "area_ratio")) * to_poly(("a", rect, "area"))).to_s()
+
+        def total(elt):
+            return ("c", ("g", "sum"), (("comp", "gen", (elt,), ((b0, cells, K_TRUE),)),), ())
+        area = total(share)
+        moment = total((to_poly(share) * to_poly(("a", rect, "center"))).to_s())
+        for st in bd:
+            if st[0] == "set" and st[1] == ("s", ("a", s_, "_areas"), mod):
+                ok_a = st[2] == area
+            if st[0] == "set" and st[1] == ("s", ("a", s_, "_centers"), mod):
+                val = to_poly(st[2])
+                zero_pt = [a for a in val.atoms() if a[0] == "c" and a[1] == ("g", "Point") and a[2] in ((k_num(0), k_num(0)), ())]
+                want1 = to_poly(("inv", area)) * to_poly(moment)
+                want2 = want1 + (to_poly(("inv", area)) * to_poly(zero_pt[0]) if zero_pt else to_poly(k_num(0)))
+                ok_c = val.t in (want1.t, want2.t)
+    ctx.site(f.where, "centre of a module == sum of cell centre * (ratio * cell area) / area", area_ok=ok_a, centre_ok=ok_c)
+    if not ok_a:
+        ctx.report(f.where, "module-area-definition", "the allocated area of a module is not the sum over all its cells of ratio * cell area (a cell is skipped or "
+                   "weighted differently): refining the cells changes the reported area", lineno=f.node.lineno)
+    if not ok_c:
+        ctx.report(f.where, "module-centre-definition", "the centre of a module is not the area-weighted mean of the centres of all its cells", lineno=f.node.lineno)
